@@ -434,7 +434,9 @@ class Fn:
         return '<fn %s>' % self.name
 
 
-_FN_RE = re.compile(r'^(fn|const|static(?: mut)?) (.+?) (?:\{|= \{)\n(.*?)^\}', re.S | re.M)
+# (the header never spans lines: a one-line `const N: T = const V;` item must not swallow the function that follows it)
+_FN_RE = re.compile(r'^(fn|const|static(?: mut)?) ([^\n]+?) (?:\{|= \{)\n(.*?)^\}', re.S | re.M)
+_CONST1_RE = re.compile(r'^const ([^\n:]+): [^\n=]+ = const ([^\n]+);$', re.M)
 _BB_RE = re.compile(r'^    (bb\d+)(?: \(cleanup\))?: \{\n(.*?)^    \}', re.S | re.M)
 _LOCAL_RE = re.compile(r'^\s*let (?:mut )?(_\d+): (.+);$', re.M)
 
